@@ -2,7 +2,7 @@
    This file contains only statements closed by [exact <lemma>] and their assumptions. *)
 From Coq Require Import ZArith Reals List.
 From Coquelicot Require Import Coquelicot.
-From FF Require Import Base.Ops Inst.RInst Base.RAlg Model.Numeric Model.Consts Model.Tie.C01 Proofs.Foi Proofs.CMBase Proofs.CMIntegral.
+From FF Require Import Base.Ops Inst.RInst Base.RAlg Model.Numeric Model.Consts Model.Tie.C01 Proofs.Foi Proofs.CMBase Proofs.CMIntegral Proofs.CMBound Proofs.CMSym.
 Local Open Scope R_scope.
 
 (* Segment integral, masked branch: the model value is the integral of e^{i x t} over [0, dt]. *)
@@ -125,3 +125,51 @@ Theorem C01_ff_diag_nonneg : forall na nk no Bm a o, (a < na)%nat -> (o < no)%na
   a3get RO (filter_function RO na nk no Bm) a a o = cofr RO (sumn RO nk (fun k => cabs2 RO (a3get RO Bm a k o))).
 Proof. exact ff_diag_nonneg. Qed.
 Print Assumptions C01_ff_diag_nonneg.
+
+(* A-priori form of the error bound (every V_g unitary): sum_mn |..||..| <= ||N||_F ||C||_F by Cauchy-Schwarz and
+   unitary invariance of the Frobenius norm, hence
+   |B_jk(w) - integral| <= (thr/2 + thr^2/2) (sum_g |s_j^g| |dt_g|) ||N_j||_F ||C_k||_F, in every time unit. *)
+Theorem C01_step_weight_le_norms : forall d V Q N Cm, funitary d (toF V) -> funitary d (toF Q) ->
+  step_weight d V Q N Cm <= Fnorm d N * Fnorm d Cm.
+Proof. exact step_weight_le_norms. Qed.
+Print Assumptions C01_step_weight_le_norms.
+
+Theorem C01_control_matrix_apriori_bound : forall d thr evs Vs dts om bs ns nc j k o,
+  0 <= thr -> (forall g, (g < length dts)%nat -> 0 <= nth g dts 0) ->
+  (forall g, (g < length dts)%nat -> funitary d (toF (nth g Vs nil))) ->
+  (j < length ns)%nat -> (k < length bs)%nat -> (o < length om)%nat ->
+  let segs := pulse_segs evs Vs dts nc j in
+  let B := a3get RO (control_matrix_from_scratch RO d thr evs Vs (propagators RO d evs Vs dts) om bs ns nc dts (times RO dts)) j k o in
+  exists I, is_CInt (cm_integrand d segs (mid RO d) 0 (vg RO om o) (nthm ns j) (nthm bs k)) 0 (segs_tau segs) I /\
+            Cmod (csub RO B I) <= taylor_eps thr * segs_sdt segs * (Fnorm d (nthm ns j) * Fnorm d (nthm bs k)).
+Proof. exact control_matrix_integral_apriori. Qed.
+Print Assumptions C01_control_matrix_apriori_bound.
+
+(* For the threshold literal of the CURRENT source (regenerated Extracted/Src.v): 0 <= thr and thr/2 + thr^2/2 <= 6e-8. *)
+Theorem C01_threshold_of_source : 0 <= foi_thr_R /\ taylor_eps foi_thr_R <= 6 / 100000000.
+Proof. exact foi_thr_eps. Qed.
+Print Assumptions C01_threshold_of_source.
+
+(* Negative frequencies: for a Hermitian noise operator and a Hermitian basis element, B_jk(-w) = conj B_jk(w);
+   hence F(-w) = conj F(w) entrywise when all of them are Hermitian. *)
+Theorem C01_cm_neg_freq : forall d thr evs Vs Qs om bs ns nc dts ts j k o,
+  (j < length ns)%nat -> (k < length bs)%nat -> (o < length om)%nat ->
+  fherm d (toF (nthm ns j)) -> fherm d (toF (nthm bs k)) ->
+  a3get RO (control_matrix_from_scratch RO d thr evs Vs Qs (map Ropp om) bs ns nc dts ts) j k o =
+  cconj RO (a3get RO (control_matrix_from_scratch RO d thr evs Vs Qs om bs ns nc dts ts) j k o).
+Proof. exact cm_neg_freq. Qed.
+Print Assumptions C01_cm_neg_freq.
+
+Theorem C01_ff_conj : forall na nk no (Bm Bm' : Arr3 (T:=R)) a b o, (a < na)%nat -> (b < na)%nat -> (o < no)%nat ->
+  (forall a' k, (a' < na)%nat -> (k < nk)%nat -> a3get RO Bm' a' k o = cconj RO (a3get RO Bm a' k o)) ->
+  a3get RO (filter_function RO na nk no Bm') a b o = cconj RO (a3get RO (filter_function RO na nk no Bm) a b o).
+Proof. exact ff_conj. Qed.
+
+(* Size: |B_jk(w)| <= (sum_g |s_j^g| |dt_g|) ||N_j||_F ||C_k||_F for every frequency (every V_g unitary). *)
+Theorem C01_control_matrix_entry_bound : forall d thr evs Vs dts om bs ns nc j k o,
+  0 <= thr -> (forall g, (g < length dts)%nat -> funitary d (toF (nth g Vs nil))) ->
+  (j < length ns)%nat -> (k < length bs)%nat -> (o < length om)%nat ->
+  Cmod (a3get RO (control_matrix_from_scratch RO d thr evs Vs (propagators RO d evs Vs dts) om bs ns nc dts (times RO dts)) j k o)
+  <= segs_sdt (pulse_segs evs Vs dts nc j) * (Fnorm d (nthm ns j) * Fnorm d (nthm bs k)).
+Proof. exact control_matrix_entry_bound. Qed.
+Print Assumptions C01_control_matrix_entry_bound.
